@@ -1179,6 +1179,23 @@ class C05(Oracle):
         out = self._one(c, c['which'], s, area, lambda: real_obs(c['which'], s, area, c['seed']))
         if out:
             return out
+        # an observation is a value of its own: one that was handed out earlier is not changed by observing
+        # another state later (same view, the agent holding something else, standing elsewhere)
+        try:
+            from harness.codec import dec_obj
+
+            first = real_obs(c['which'], s, area, c['seed'])
+            snap = enc_state(first)
+            other = state_from_str(c['state'])
+            other.agent.grid_object = dec_obj('K3' if enc_held(other) != 'K3' else 'N')
+            other.agent.orientation = other.agent.orientation * O.R
+            second = real_obs(c['which'], other, area, c['seed'])
+            if enc_state(first) != snap:
+                out.append(V('observation/earlier-observation-changed-by-a-later-one', f'{c}: {snap} -> {enc_state(first)}'))
+            if out:
+                return out
+        except (NotImplementedError, ValueError):
+            pass
         # the same state object again, through the other functions: what an earlier call computed (or
         # masked) must not show in a later one
         out = self._one(c, 'fully_transparent', s, area, lambda: real_obs('fully_transparent', s, area, c['seed']), tag=' (after an earlier observation of the same state object)')
@@ -1507,7 +1524,7 @@ def gen_env_cases(rng, p_random=0.4):
     files = shipped_files()
     while True:
         if rng.random() < p_random:
-            data = corr_env.random_config(rng)
+            data = corr_env.random_config(rng, stochastic_obs=0.25)
             src = {'config': data}
             nact = len(data.get('action_space') or ACTIONS)
         else:
@@ -1750,11 +1767,34 @@ class C04(Oracle):
             except Exception as e:
                 out.append(V('outer/read-raises', f'{type(e).__name__}: {e} {where}'))
 
+        def switch_and_scribble(where):
+            # between two reads of the same inner state: the caller scribbles over the arrays it was handed,
+            # and the representations are replaced (as the gym adapter's set_*_representation does); the next
+            # read is the conversion, by the representation in force, of the inner state as it is
+            nonlocal srep, orep
+            try:
+                for d_ in (outer.observation, outer.state):
+                    for v_ in d_.values():
+                        if isinstance(v_, np.ndarray) and v_.size:
+                            v_.fill(-7)
+                if (c['seed'] + len(where)) % 2 == 0:
+                    name = ('default', 'no-overlap', 'compact')[(c['seed'] + len(where)) % 3]
+                    srep = make_state_representation(name, inner.state_space)
+                    orep = make_observation_representation(name, inner.observation_space)
+                    outer.state_representation = srep
+                    outer.observation_representation = orep
+            except Exception as e:
+                out.append(V('outer/read-raises', f'{type(e).__name__}: {e} {where}'))
+            probe(where + ' (after the caller overwrote the returned arrays / replaced the representations)')
+
         outer.reset()
         probe('after reset')
+        switch_and_scribble('after reset')
         for k, (ai, rd) in enumerate(zip(c['actions'], c['reads'])):
             if 'o' in rd or 's' in rd:
                 probe(f'before step {k}')
+                if k % 3 == 1:
+                    switch_and_scribble(f'before step {k}')
             if 'r' in rd:
                 outer.reset()
                 probe(f'after reset before step {k}')
